@@ -283,3 +283,26 @@ Example C09_length_prefix_boundaries :
      | _, _ => false
      end = true).
 Proof. intros n Hn. cbn [In] in Hn. repeat (destruct Hn as [<-|Hn]; [vm_compute; reflexivity|]). contradiction. Qed.
+
+(* ================================================================== (G) encodeMapKey from the Go source *)
+(* conv/j2p/decode.go encodeMapKey is translated from the Go text on every build (gen/Gen_j2pkey.v): the strconv parsers are oracle
+   inputs (gen_key feeds them with the model's go_parse_int / go_parse_uint / go_parse_bool), the writes go through the generated
+   proto/binary writers.  It IS the model's encode_map_key: same success / failure for every key text and key kind, the same bytes
+   appended on success, the buffer untouched on failure. *)
+From DG Require GoSem Gen_j2pkey Check20h GenJ2pkeyProofs.
+Theorem C09_encodeMapKey_from_source :
+  forall buf rd key kk, ProtoMsg.plen key < 2 ^ 64 -> (kk = 9 -> GoSem.utf8_valid key = Json.utf8_valid key) ->
+  match encode_map_key buf key kk with
+  | Some b => exists eff, Check20h.gen_key buf rd key kk = (0, eff, b, rd)
+  | None => exists e eff, Check20h.gen_key buf rd key kk = (e, eff, buf, rd) /\ e <> 0
+  end.
+Proof. exact GenJ2pkeyProofs.encodeMapKey_is_model. Qed.
+Print Assumptions C09_encodeMapKey_from_source.
+
+(* int32 / int64 keys are parsed by ParseInt(key, 10, 32 / 64), uint32 / uint64 keys by ParseUint(key, 10, 32 / 64) *)
+Theorem C09_encodeMapKey_parsers_from_source :
+  forall buf rd key,
+  (forall kk, kk = 5 \/ kk = 3 -> exists r, snd (fst (fst (Check20h.gen_key buf rd key kk))) = [(Gen_j2pkey.Eff_ParseInt, [10; if Z.eqb kk 5 then 32 else 64])] /\ r = tt) /\
+  (forall kk, kk = 13 \/ kk = 4 -> exists r, snd (fst (fst (Check20h.gen_key buf rd key kk))) = [(Gen_j2pkey.Eff_ParseUint, [10; if Z.eqb kk 13 then 32 else 64])] /\ r = tt).
+Proof. exact GenJ2pkeyProofs.encodeMapKey_parsers. Qed.
+Print Assumptions C09_encodeMapKey_parsers_from_source.
